@@ -202,6 +202,7 @@ class World:
     self._inv_before = dict(config._INVERSE_REGISTRY)
     self._hooks_before = list(config._FINALIZE_HOOKS)
     self._hard_reset()
+    self.published = []     # module names this world put into sys.modules
     self.twins = {}         # dotted selector of a twin registration -> selector that owns the shared function
     self.calling = None
     self.reg_status = {}    # dotted selector -> 'ok' / exception class: every initial descriptor is valid by construction
@@ -247,6 +248,8 @@ class World:
     for k in [k for k in list(config._INVERSE_REGISTRY) if k not in self._inv_before]:
       del config._INVERSE_REGISTRY[k]
     config._RENAMED_SELECTORS.clear()
+    for mname in self.published:
+      sys.modules.pop(mname, None)
 
   # the specification's "left by an exception" is concretised by every kind of exception a `with` body can be left
   # by: an ordinary error, the non-Exception BaseExceptions, and the GeneratorExit of a generator closed while
@@ -365,7 +368,26 @@ class World:
     self.desc[sel] = d
     self.originals[sel] = obj
     self.probes[sel] = wrapped
+    # like real code, a probe is an attribute of the module it claims to live in (what a config with dynamic registration,
+    # or the import lines of such a config string, refer to)
+    self._publish(module or 'gvprobe', name, wrapped if (d['api'] == 'configurable' and wrapped is not None) else obj)
     return 'ok'
+
+  def _publish(self, module, name, attr):
+    parts = module.split('.')
+    for i in range(1, len(parts) + 1):
+      mname = '.'.join(parts[:i])
+      mod = sys.modules.get(mname)
+      if mod is None:
+        mod = types.ModuleType(mname)
+        mod.__path__ = []           # so that submodules can be imported from it
+        sys.modules[mname] = mod
+        self.published.append(mname)
+      elif mname not in self.published:
+        return                      # a real module of that name exists: leave it alone
+      if i > 1:
+        setattr(sys.modules['.'.join(parts[:i - 1])], parts[i - 1], mod)
+    setattr(sys.modules[module], name, attr)
 
   def callable_for(self, sel):
     if (sel in self.twins or sel in self.twins.values()) and self.probes.get(sel) is None:
